@@ -14,9 +14,19 @@ Local Open Scope N_scope.
 
 Arguments N.add : simpl never. Arguments N.max : simpl never. Arguments N.leb : simpl never.
 
+(* thresh: the most expensive choice of exactly j satisfied children among [ps] = (sat, dsat) bounds, in order *)
+Fixpoint tbest (j : nat) (ps : list (N * N)) : N :=
+  match ps with
+  | [] => 0
+  | p :: r => N.max (match j with S j' => fst p + tbest j' r | O => 0 end) (snd p + tbest j r)
+  end.
+
 (* (bound for table satisfactions, bound for table dissatisfactions) *)
 Fixpoint pcms (m : ms) : N * N :=
   match m with
+  | MThresh k xs =>
+    let ps := (fix go (l : list ms) : list (N * N) := match l with [] => [] | x :: r => pcms x :: go r end) xs in
+    (tbest (N.to_nat k) ps, tbest 0 ps)
   | MAlt x | MSwap x | MCheck x | MZeroNotEqual x => pcms x
   | MVerify x => (fst (pcms x), 0)
   | MDupIf x => (fst (pcms x), 0)
@@ -31,9 +41,24 @@ Fixpoint pcms (m : ms) : N * N :=
   | _ => (ast_cms m, ast_cms m)
   end.
 
+Lemma pcms_thresh k xs : pcms (MThresh k xs) = (tbest (N.to_nat k) (map pcms xs), tbest 0 (map pcms xs)).
+Proof.
+  cbn [pcms].
+  assert (H : (fix go (l : list ms) : list (N * N) := match l with [] => [] | x :: r => pcms x :: go r end) xs = map pcms xs).
+  { induction xs as [|x r IH]; [reflexivity|]. cbn [map]. rewrite <- IH. reflexivity. }
+  rewrite H. reflexivity.
+Qed.
+Lemma tbest_le l : Forall (fun m => fst (pcms m) <= ast_cms m /\ snd (pcms m) <= ast_cms m) l ->
+  forall j, tbest j (map pcms l) <= (fix go (l : list ms) : N := match l with [] => 0 | x :: r => ast_cms x + go r end) l.
+Proof.
+  induction 1 as [|x r [H1 H2] _ IH]; intros j; cbn [map tbest]; [lia|].
+  pose proof (IH j). destruct j as [|j']; [lia|]. pose proof (IH j'). lia.
+Qed.
+
 Lemma pcms_le_ast m : fst (pcms m) <= ast_cms m /\ snd (pcms m) <= ast_cms m.
 Proof.
-  induction m using ms_ind'; cbn [pcms ast_cms fst snd]; try (split; lia).
+  induction m using ms_ind'; try (cbn [pcms ast_cms fst snd]; split; lia).
+  rewrite pcms_thresh. cbn [fst snd ast_cms]. split; apply tbest_le; assumption.
 Qed.
 
 Definition ops_traced (fx : fixes) (c : xctx) (m : ms) : bool :=
@@ -411,6 +436,111 @@ Section OpsTrace.
       exact (seq_notif a ta (enc ke c0) (Some (enc ke b)) Ha Hba Hua Hwa Hna Ia true x y rest al _ Hx' (Jc true y Hy')).
   Qed.
 
+  (* ---- thresh: X0 X1 ADD ... Xn ADD k EQUAL; every choice of exactly j satisfied children ---- *)
+  Lemma thresh_tail_c xs : Forall (fun x => goodW e ke A x true) xs ->
+    forall j w s rest al, In w (thresh_comb j (map (sd ke A) xs)) ->
+      (0 <= s)%Z -> (s + Z.of_nat (length xs) < 2147483648)%Z ->
+      exec e (enc_tail ke xs) (mkSt (num_encode s :: w ++ rest) al) = Ok (mkSt (num_encode (s + Z.of_nat j) :: rest) al).
+  Proof.
+    apply (thresh_tail e ke A);
+      [intros z Hz; apply num_roundtrip; lia | intros z Hz; apply num_roundtrip; lia | apply num_truthy | intros v z; apply num_truthy_iff].
+  Qed.
+
+  Lemma tail1 x : goodW e ke A x true -> forall (d : bool) a s rest al, In a (tsel d x) ->
+    (0 <= s)%Z -> (s + 1 < 2147483648)%Z ->
+    exec e (enc ke x ++ [IOp OP_ADD]) (mkSt (num_encode s :: a ++ rest) al)
+    = Ok (mkSt (num_encode (if d then s else s + 1) :: rest) al).
+  Proof.
+    intros Hg d a s rest al Ha Hs Hb.
+    pose proof (thresh_tail_c [x] (Forall_cons (P := fun x => goodW e ke A x true) x Hg (Forall_nil _)) (if d then 0 else 1)%nat (a ++ []) s rest al) as H.
+    cbn [enc_tail length] in H. rewrite !app_nil_r in H.
+    replace (s + Z.of_nat (if d then 0%nat else 1%nat))%Z with (if d then s else (s + 1)%Z) in H by (destruct d; lia).
+    apply H; [|exact Hs|lia]. cbn [map thresh_comb]. unfold tsel, all_sat, all_dsat in Ha.
+    destruct (sd ke A x) as [sx dx]. cbn [fst snd] in Ha. destruct d.
+    - cbn [thresh_comb app]. apply in_cross. exists a, []. rewrite app_nil_r. repeat split; [exact Ha|left; reflexivity].
+    - cbn [thresh_comb]. apply in_or_app. left. apply in_cross. exists a, []. rewrite app_nil_r. repeat split; [exact Ha|left; reflexivity].
+  Qed.
+
+  Lemma bnd_tail r : Forall (fun x => goodW e ke A x true /\ TSi x BW) r ->
+    forall j w s rest al, In w (thresh_comb j (map (sd ke A) r)) ->
+      (0 <= s)%Z -> (s + Z.of_nat (length r) < 2147483648)%Z ->
+      bnd e (enc_tail ke r) (mkSt (num_encode s :: w ++ rest) al) (tbest j (map pcms r)).
+  Proof.
+    induction 1 as [|x r [Hg Ix] Hr IH]; intros j w s rest al Hin Hs Hb.
+    - cbn [enc_tail]. eapply bnd_le; [apply bnd_nil | lia].
+    - cbn [map thresh_comb] in Hin. destruct (sd ke A x) as [sx dx] eqn:Ex.
+      cbn [length] in Hb. cbn [enc_tail map tbest]. rewrite app_assoc.
+      apply in_app_or in Hin. destruct Hin as [Hin|Hin].
+      + destruct j as [|j']; [contradiction|]. apply in_cross in Hin. destruct Hin as [a [b [Ha [Hb' ->]]]].
+        assert (Ha' : In a (tsel false x)) by (unfold tsel, all_sat; rewrite Ex; exact Ha).
+        rewrite <- (app_assoc a b rest).
+        eapply bnd_le; [eapply bnd_app; [exact (tail1 x Hg false a s (b ++ rest) al Ha' Hs ltac:(lia))
+                                        | apply bnd_app_glue; [reflexivity | exact (Ix false (num_encode s) a (b ++ rest) al Ha')]
+                                        | apply (IH j' b (s + 1)%Z rest al Hb'); lia] | cbn [msel]; lia].
+      + apply in_cross in Hin. destruct Hin as [a [b [Ha [Hb' ->]]]].
+        assert (Ha' : In a (tsel true x)) by (unfold tsel, all_dsat; rewrite Ex; exact Ha).
+        rewrite <- (app_assoc a b rest).
+        eapply bnd_le; [eapply bnd_app; [exact (tail1 x Hg true a s (b ++ rest) al Ha' Hs ltac:(lia))
+                                        | apply bnd_app_glue; [reflexivity | exact (Ix true (num_encode s) a (b ++ rest) al Ha')]
+                                        | apply (IH j b s rest al Hb'); lia] | cbn [msel]; lia].
+  Qed.
+
+  Lemma ts_thresh k xs : Forall TS xs -> TS (MThresh k xs).
+  Proof.
+    intros IH t Ht Hwf Hnm Hms. cbn [type_of] in Ht. fold (tys_of xs) in Ht.
+    apply rbind_ok in Ht. destruct Ht as [ts [Hts Ht]]. apply tys_of_ok in Hts.
+    cbn [wf no_multi multi_small] in Hwf, Hnm, Hms. destruct Hwf as [Hk [Hn Hwf]].
+    assert (Hall : Forall2 (fun x t => type_of x = ROk t /\ wf e ke x /\ no_multi x /\ good e ke A x t
+                                       /\ TSi x (c_base (t_corr t))) xs ts).
+    { clear Ht Hk Hn. revert ts Hts Hwf Hnm Hms. induction IH as [|x r Hx Hr IHr]; intros ts Hts Hwf Hnm Hms.
+      - inversion Hts. constructor.
+      - inversion Hts as [|x' t' r' ts' Hxt Hrt]; subst. destruct Hwf as [Hw1 Hw2]. destruct Hnm as [Hn1 Hn2].
+        cbn in Hms. apply andb_prop in Hms. destruct Hms as [Hm1 Hm2].
+        constructor; [|apply IHr; assumption].
+        split; [exact Hxt|]. split; [exact Hw1|]. split; [exact Hn1|].
+        split; [exact (proj1 (theoremA_closed e ke A HA Hse x t' Hxt Hw1 Hn1)) | apply tsi_of; exact (Hx t' Hxt Hw1 Hn1 Hm1)]. }
+    unfold t_threshold in Ht. destruct (c_threshold k (map t_corr ts)) as [c0|] eqn:Ec; [|discriminate].
+    inversion Ht; subst; clear Ht.
+    destruct xs as [|x0 r]; [cbn in Hk; lia|]. inversion Hall as [|x0' t0 r' ts0 H0 Hrest]; subst.
+    unfold c_threshold in Ec. cbn [map] in Ec. destruct (loop_first (t_corr t0) (map t_corr ts0)) as [Lt Lf].
+    destruct (child_ok true (t_corr t0) && forallb (child_ok false) (map t_corr ts0)) eqn:Eok.
+    2:{ destruct (Lf eq_refl) as [err He]. rewrite He in Ec. discriminate. }
+    rewrite (Lt eq_refl) in Ec. inversion Ec; subst; clear Ec.
+    apply andb_prop in Eok. destruct Eok as [Ok0 Okr].
+    destruct H0 as (Hx0 & Hw0 & Hn0 & Hg0 & I0).
+    unfold child_ok in Ok0. destruct t0 as [[b0 i0 d0 u0] m0]. cbn [t_corr c_base c_unit c_dissat] in Ok0, I0.
+    destruct b0, u0, d0; try discriminate.
+    assert (HW : Forall (fun x => goodW e ke A x true /\ TSi x BW) r).
+    { clear -Hrest Okr. induction Hrest as [|x t r ts Hx Hr IHr]; [constructor|].
+      cbn [map forallb] in Okr. apply andb_prop in Okr. destruct Okr as [O1 O2].
+      constructor; [|apply IHr, O2]. unfold child_ok in O1. destruct t as [[b i d u] m].
+      cbn [t_corr c_base c_unit c_dissat] in O1. destruct b, u, d; try discriminate.
+      destruct Hx as (_ & _ & _ & Hg & Hi). split; [exact Hg | exact Hi]. }
+    assert (Hlen : (Z.of_nat (length r) + 1 < 2147483648)%Z) by (cbn [length] in Hn; lia).
+    intros c w rest al. cbn [t_corr c_base instk]. rewrite enc_thresh, pcms_thresh.
+    cbn [fst snd map tbest]. unfold all_sat, all_dsat. rewrite sd_thresh. cbn [fst snd map thresh_comb].
+    destruct (sd ke A x0) as [s0 d0] eqn:E0.
+    assert (X0 : forall d a b n s, In a (tsel d x0) -> s = (if d then 0 else 1)%Z ->
+                 bnd e (enc_tail ke r) (mkSt (num_encode s :: b ++ rest) al) n ->
+                 bnd e (enc ke x0 ++ enc_tail ke r ++ [push_int (Z.of_N k); IOp OP_EQUAL]) (mkSt ((a ++ b) ++ rest) al)
+                     (msel d (pcms x0) + n)).
+    { intros d a b n s Ha -> Hb. rewrite <- app_assoc.
+      eapply bnd_app; [exact (x_exit x0 _ Hx0 eq_refl eq_refl Hw0 Hn0 d a (b ++ rest) al Ha) | exact (I0 d [] a (b ++ rest) al Ha) |].
+      apply bnd_app_glue; [cbn [cbl]; rewrite cb_push_int; reflexivity|]. destruct d; exact Hb. }
+    split; intros Hin.
+    - apply in_app_or in Hin. destruct Hin as [Hin|Hin].
+      + destruct (N.to_nat k) as [|k'] eqn:Ek; [contradiction|].
+        apply in_cross in Hin. destruct Hin as [a [b [Ha [Hb ->]]]].
+        assert (Ha' : In a (tsel false x0)) by (unfold tsel, all_sat; rewrite E0; exact Ha).
+        eapply bnd_le; [exact (X0 false a b _ 1%Z Ha' eq_refl (bnd_tail r HW k' b 1%Z rest al Hb ltac:(lia) ltac:(lia))) | cbn [msel]; lia].
+      + apply in_cross in Hin. destruct Hin as [a [b [Ha [Hb ->]]]].
+        assert (Ha' : In a (tsel true x0)) by (unfold tsel, all_dsat; rewrite E0; exact Ha).
+        eapply bnd_le; [exact (X0 true a b _ 0%Z Ha' eq_refl (bnd_tail r HW (N.to_nat k) b 0%Z rest al Hb ltac:(lia) ltac:(lia))) | cbn [msel]; lia].
+    - cbn [app] in Hin. apply in_cross in Hin. destruct Hin as [a [b [Ha [Hb ->]]]].
+      assert (Ha' : In a (tsel true x0)) by (unfold tsel, all_dsat; rewrite E0; exact Ha).
+      eapply bnd_le; [exact (X0 true a b _ 0%Z Ha' eq_refl (bnd_tail r HW 0%nat b 0%Z rest al Hb ltac:(lia) ltac:(lia))) | cbn [msel]; lia].
+  Qed.
+
   Theorem ops_trace_table : forall m, TS m.
   Proof.
     induction m using ms_ind'; try (apply ts_fallback; reflexivity);
@@ -418,6 +548,6 @@ Section OpsTrace.
             | apply ts_dupif; assumption | apply ts_verify; assumption | apply ts_nonzero; assumption
             | apply ts_zne; assumption | apply ts_or_d; assumption | apply ts_or_i; assumption
             | apply ts_and_v; assumption | apply ts_and_b; assumption | apply ts_or_b; assumption
-            | apply ts_or_c; assumption | apply ts_andor; assumption ].
+            | apply ts_or_c; assumption | apply ts_andor; assumption | apply ts_thresh; assumption ].
   Qed.
 End OpsTrace.
